@@ -13,7 +13,7 @@ echo "# sweep of $(date -u +%FT%TZ) against /repo $(git -C /repo rev-parse --sho
 for s in $L; do
   id=${s%-*}
   git -C "$WT" checkout -q --detach "$(git -C /repo rev-parse HEAD)" && git -C "$WT" checkout -q -- . && git -C "$WT" clean -fdq
-  if ! git -C "$WT" apply "seeded/$s/patch.diff" 2>/dev/null; then echo "$s n/a (patch does not apply to HEAD)" >> "$OUT"; continue; fi
+  if ! git -C "$WT" apply "/verif/seeded/$s/patch.diff" 2>/dev/null; then echo "$s n/a (patch does not apply to HEAD)" >> "$OUT"; continue; fi
   log=$(VERIF_REPO=$WT timeout 3000 ./check "$id" --tier quick 2>&1); rc=$?
   nv=$(echo "$log" | grep -c "^VIOLATION")
   nn=$(echo "$log" | grep "^VIOLATION" | grep -c "no-failing-input-found")
